@@ -273,7 +273,7 @@ impl Check for C12 {
                 for n in 0..=6 {
                     points.push(ab("datagrams", n));
                 }
-                for t in (0..=tier.pick(12_000, 24_000)).step_by(500) {
+                for t in (0..=tier.pick(12_000, 24_000)).step_by(tier.pick(500, 250)) {
                     points.push(ab("us", t));
                 }
                 for d in [0u64, 500, 3_000] {
@@ -281,12 +281,12 @@ impl Check for C12 {
                 }
                 for p in points {
                     let dev = p["how"] == "datagrams" || p["how"] == "handler_start";
-                    u.push(json!({"kind":"point","reverse":reverse,"handler":handler,"body_len":20,"abandons":[p],"bound": if dev { tier.pick(1, 2) } else { tier.pick(0, 1) },"fate_budget":12}));
+                    u.push(json!({"kind":"point","reverse":reverse,"handler":handler,"body_len":20,"abandons":[p],"bound": if dev { 2 } else { 1 },"fate_budget":12}));
                 }
             }
             // 200 KiB request: several flights; abandon after every n-th datagram
-            let max_n = tier.pick(60, 230);
-            let step = tier.pick(3, 1);
+            let max_n = tier.pick(120, 230);
+            let step = tier.pick(2, 1);
             for n in (0..=max_n).step_by(step) {
                 u.push(json!({"kind":"point","reverse":reverse,"handler":"never","body_len":200*1024,"abandons":[ab("datagrams", n)],"bound":0,"fate_budget":0}));
             }
